@@ -130,6 +130,13 @@ func (b *Bus) Publish(ctx context.Context, e *wire.Envelope) error {
 			b.S.Event(from, "send", desc+" -> "+to+" [intercepted]")
 			return nil
 		}
+		// an edited envelope must still be decodable (the properties quantify
+		// over decodable messages only)
+		if e2, err = b.Reserialise(e2); err != nil {
+			b.S.Event(from, "send", desc+" -> "+to+" [edited message not decodable: dropped]")
+			b.S.Count("probe.crafted_undecodable", 1)
+			return nil
+		}
 	}
 	fate := "deliver"
 	b.mu.Lock()
